@@ -203,8 +203,8 @@ CLAIMED = {
         "targets declared, in range and of the port's width) is a Lean definition *executed* on every package the real code returns: "
         "generated designs, the repository's examples, Series/MosStack/Wrapper over parameter ranges, a PDK-compiled design; plus "
         "acceptance by from_proto and the spice and spectre netlisters.",
-        note="That elaboration establishes EWF is evaluated on every explored design, not proved (the checking passes are not modelled one by "
-        "one); module-name uniqueness and external-module declarations rest on the executed predicate. Primitive port table regenerated from /repo each run.",
+        note="checked_instance_is_instOK + orphanage_gives_sigsOK: an instance that passed ConnTypes and Orphanage and whose connections are resolved satisfies the instance part of EWF "
+        "(hypothesis: what a module parents is what it declares — C18's coherence). The module-level parts of EWF (names, widths, directions) are evaluated on every explored design, not proved; module-name uniqueness and external-module declarations rest on the executed predicate. Primitive port table regenerated from /repo each run.",
         ref="DESIGN.md §6 C06",
         technique="Lean 4 proof (traversal invariant by induction; width/range from C03/C01 lemmas) + executed Lean predicate on real packages",
     ),
@@ -215,12 +215,16 @@ CLAIMED = {
         "width rule accepts exactly w and n*w and hands element k bits [k*w,(k+1)*w); ResolvePortRefs raises exactly on unconnected-and-unreferenced "
         "ports, shared no-connects and groups with two sources (portrefs_rejects_iff); ConnTypes.check_instance (modelled with its pop-from-a-copy "
         "algorithm) returns exactly when every port of the target is connected, with the port's width, and nothing else is (conntypes_passes_iff; "
-        "the reported bad connections are compared name by name with the model's statuses on random fault mixes). The other fault classes are decided by "
+        "the reported bad connections are compared name by name with the model's statuses on random fault mixes); Orphanage (Orphanage.lean: the recursive "
+        "check_connectable over Signal / BundleInstance / Slice / Concat / AnonymousBundle / PortRef / BundleRef / NoConn) returns exactly when every namespace "
+        "entry is parented by the module and filed under its own name and everything any connection is made of is parented by the module "
+        "(orphanage_passes_iff, orphanage_rejects, orphanage_exemptions; the real pass is run alone on random ownership mixes — own, another module's, nobody's, replaced — "
+        "and its verdict compared with the model's). The other fault classes are decided by "
         "correspondence: single-fault mutants of valid generated designs (12 classes, sites drawn from every sub-connectable of every "
         "connection, top and deep, scalar/bus/slice/concat/reference/bundle/anonymous/array/pair) and generated ill-formed designs, with "
         "the declarative Sem.src as judge of ill-formedness; elaborate, to_proto and netlist must all raise.",
-        note="The checking passes (ConnTypes, Orphanage, MarkModules) are not modelled in Lean; their completeness rests on the mutation "
-        "correspondence. Clashing module names are an export-level fault: elaborate() alone is not required to notice them.",
+        note="Of the checking passes MarkModules is not modelled in Lean (ConnTypes, Orphanage and ResolvePortRefs' refusals are); that the modelled checks together cover every "
+        "fault class rests on the mutation correspondence. Clashing module names are an export-level fault: elaborate() alone is not required to notice them.",
         ref="DESIGN.md §6 C02",
         technique="Lean 4 proof (runner invariant, index/array rules) + single-fault mutation correspondence judged by a declarative model",
     ),
@@ -264,7 +268,9 @@ CLAIMED = {
         "enumeration order of the set (any permutation — the model of CPython's address- and seed-dependent set iteration), so anything "
         "computed from portref.ordered() — the order of an instance's connections, invented names — is the same in every process "
         "(order_independent, computed_from_ordered, ordered_perm); the key as written, (instance name, port name) compared as tuples, identifies the "
-        "references held by the instances of one module, the instance name alone does not (ordered_portrefs_independent, instance_name_alone_is_not_a_key). The runtime facts no model can exhibit (id()/seed based hashing, "
+        "references held by the instances of one module, the instance name alone does not (ordered_portrefs_independent, instance_name_alone_is_not_a_key); the group ResolvePortRefs.follow discovers by depth-first search is the same set of references whatever order "
+        "the sets of connected ports are iterated in (group_members_order_independent: any per-node permutation of the neighbour lists, any fuel; dfs_nodup + dfs_component), hence everything computed "
+        "from the ordered group is too (handled_group_order_independent). The runtime facts no model can exhibit (id()/seed based hashing, "
         "allocation history, protobuf determinism, md5) are decided by correspondence: every generated design and a corpus where one "
         "bundle (or one anonymous bundle object) feeds several ports of an instance, reference groups with ties, generator programs with hashed / "
         "over-long / uncached names, run in N fresh interpreters with different PYTHONHASHSEED and random unrelated "
@@ -272,7 +278,7 @@ CLAIMED = {
         note="The theorem covers the iteration sites routed through portref.ordered(); any other hash-order dependence can only be found by "
         "the multi-interpreter runs (8 seeds quick, 48 thorough).",
         ref="DESIGN.md §6 C12",
-        technique="Lean 4 proof (permutation invariance of sorting by an identifying key) + multi-interpreter differential runs",
+        technique="Lean 4 proof (permutation invariance of sorting by an identifying key; DFS result independent of neighbour order) + multi-interpreter differential runs",
     ),
     "C11": dict(
         text="Proved in Lean for connection targets of any nesting: import (slice.top inclusive -> Python stop, concatenation parts reversed) "
